@@ -59,11 +59,32 @@ def checkApk (ms : List SMember) (datahash : Option Bytes) (dataSegSha256 : Byte
         (fun m => "pax-sha1-differs:" ++ String.fromUTF8! ⟨m.name.toArray⟩))
   ++ sizesConsistent ms
 
+/-- a byte an mtree(5) reader takes literally inside a word: printable ASCII except space, `\`, `"` and `#` -/
+def mtreeSafe (b : UInt8) : Bool := 0x20 < b && b < 0x7f && b != 0x5c && b != 0x22 && b != 0x23
+
+def oct3 (b : UInt8) : Bytes := [0x30 + b / 64, 0x30 + (b / 8) % 8, 0x30 + b % 8]
+
+/-- mtree(5) quoting of a path as bsdtar writes it (arch.mtreeQuote): every other byte becomes `\ooo` -/
+def mtreeEsc (p : Bytes) : Bytes := p.flatMap (fun b => if mtreeSafe b then [b] else 0x5c :: oct3 b)
+
+def octVal (a b c : UInt8) : UInt8 := (a - 0x30) * 64 + (b - 0x30) * 8 + (c - 0x30)
+
+/-- what an mtree(5) reader makes of a word: `\ooo` is one byte -/
+def mtreeUnesc (l : Bytes) : Bytes :=
+  match l with
+  | [] => []
+  | x :: rest =>
+    if x = 0x5c ∧ 3 ≤ rest.length then
+      octVal (rest.getD 0 0) (rest.getD 1 0) (rest.getD 2 0) :: mtreeUnesc (rest.drop 3)
+    else x :: mtreeUnesc rest
+termination_by l.length
+decreasing_by all_goals simp <;> omega
+
 /-- one .MTREE line (arch.MtreeEntry.WriteTo) for a shipped member -/
 def mtreeLine (m : SMember) : Bytes :=
-  b!"./" ++ m.name ++ b!" time=" ++ intToDec m.mtime ++ b!".0 mode=" ++
+  b!"./" ++ mtreeEsc m.name ++ b!" time=" ++ intToDec m.mtime ++ b!".0 mode=" ++
   (if m.kind == tDir then toOct m.mode ++ b!" type=dir\n"
-   else if m.kind == tSym then toOct 0o777 ++ b!" type=link link=" ++ m.link ++ [nl]
+   else if m.kind == tSym then toOct 0o777 ++ b!" type=link link=" ++ mtreeEsc m.link ++ [nl]
    else toOct m.mode ++ b!" size=" ++ natToDec m.bodyLen ++ b!" type=file md5digest=" ++ hexOf m.md5
         ++ b!" sha256digest=" ++ hexOf m.sha256 ++ [nl])
 
